@@ -310,4 +310,34 @@ theorem liftOpt_lowerOpt (p : Nat) (m : Mem) : ∀ (pv : Option Val) (o : Option
         rw [coerceBack_coercePayload _ _ _ h2 (by simpa [Spec.flattenOpt] using hw), ih]
         rfl
 end
+/-! ### strings (a type that uses linear memory) -/
+
+theorem read_write_ne (m : Mem) (a b x : Nat) (h : b ≠ a) : (m.write b x).read a = m.read a := by
+  simp [Mem.write, Mem.read, h]
+
+theorem read_write_eq (m : Mem) (a x : Nat) : (m.write a x).read a = x % 256 := by
+  simp [Mem.write, Mem.read]
+
+theorem read_storeBytes_lt : ∀ (bs : List Nat) (m : Mem) (a b : Nat), a < b → (storeBytes m b bs).read a = m.read a
+  | [], _, _, _, _ => rfl
+  | x :: bs, m, a, b, h => by
+      simp only [storeBytes]
+      rw [read_storeBytes_lt bs _ a (b + 1) (by omega), read_write_ne _ _ _ _ (by omega)]
+
+theorem loadBytes_storeBytes : ∀ (bs : List Nat) (m : Mem) (a : Nat), (∀ b ∈ bs, b < 256) →
+    loadBytes (storeBytes m a bs) a bs.length = bs
+  | [], _, _, _ => rfl
+  | x :: bs, m, a, h => by
+      simp only [storeBytes, List.length_cons, loadBytes]
+      rw [read_storeBytes_lt bs _ a (a + 1) (by omega), read_write_eq,
+        loadBytes_storeBytes bs _ (a + 1) (fun b hb => h b (List.mem_cons_of_mem _ hb)),
+        Nat.mod_eq_of_lt (h x (by simp))]
+
+/-- the spec's flat round trip for strings (a type that uses linear memory) -/
+theorem liftFlat_lowerFlat_string (p : Nat) (bs : List Nat) (st : St) (h : hasTy .string (.str bs) = true) :
+    Spec.liftFlat p (Spec.lowerFlat p .string (.str bs) st).2.mem .string (Spec.lowerFlat p .string (.str bs) st).1
+      = some (.str bs) := by
+  simp only [hasTy, List.all_eq_true, decide_eq_true_eq] at h
+  simp [Spec.lowerFlat, Spec.liftFlat, pcv, loadBytes_storeBytes bs _ _ h]
+
 end Witverif.Abi
